@@ -325,6 +325,8 @@ fn str_to_partial_tokens<NumericTypes: EvalexprNumericTypes>(
 
             if let PartialToken::Slash = partial_token {
                 if try_skip_comment(&mut iter)? {
+                    // A comment separates the tokens around it like whitespace does.
+                    result.push(PartialToken::Whitespace);
                     continue;
                 }
             }
